@@ -278,11 +278,40 @@ func TestVerifC05(t *testing.T) {
 		}
 	}
 
+	// notice lines of every length (kind 5): a rule that looks at the byte length of a
+	// line changes its mind when quotes and hyphens become multi-byte characters
+	for k := 0; k < e.pick(12, 60); k++ {
+		cases = append(cases, cdesc{5, rr.Intn(len(docs)), []int{4, 5, 0, 1}[k%4]})
+	}
+
 	for idx, cd := range cases {
 		cd := cd
 		e.run(idx, "transform", map[string]interface{}{"base": cd.kind, "doc": cd.doc, "tf": cd.tf}, func(cs *vCase) {
 			r := cs.rng
-			b := vMakeBase(r, cd.kind, docs, cd.doc, vocab)
+			var b vBase
+			if cd.kind == 5 {
+				d := docs[cd.doc]
+				for len(d.raw) > 4000 {
+					d = docs[r.Intn(len(docs))]
+				}
+				var sb strings.Builder
+				// the notices come first: one that is no longer recognised shifts the
+				// license's token span
+				// lengths 40..1200 in steps small enough that a three-fold growth of a few
+				// characters crosses any fixed limit for some line
+				for L := 40 + r.Intn(5); L < 1200; L += 5 {
+					line := "Copyright 2020 \"Example\" Corp - all rights reserved, \"as is\" 'x'"
+					for len(line) < L {
+						line += " " + []string{"and", "\"co\"", "ltd", "inc", "x-y", "the"}[r.Intn(6)]
+					}
+					sb.WriteString(line + "\n")
+				}
+				sb.WriteString(vWithNL(string(d.raw)))
+				sb.WriteString(vOOVBlock(r, 1))
+				b = vBase{"notice-lengths:" + d.key, sb.String()}
+			} else {
+				b = vMakeBase(r, cd.kind, docs, cd.doc, vocab)
+			}
 			lines := strings.Split(b.text, "\n")
 			lmap := vIdentityMap(len(lines))
 			names := ""
